@@ -479,6 +479,10 @@ EINSUMS = [("i->", "a"), ("ij->", "ab"), ("i,i->i", "a;a"), ("i,i->", "a;a"), ("
            ("ij->j", "ab"), ("ij->i", "ab"), ("i,j->", "a;b"), ("ij,j->", "ab;b"), ("ij,k->k", "ab;c"),
            ("ijk->j", "abc")]
 DIMS = {"a": 2, "b": 3, "c": 4, "d": 2}
+# expressions in which ONE signal is connected to two operand slots (quadratic forms, projections, squared norms, as in
+# the EinSum docstring and examples/): (expression, operand shapes, the two slots that share a signal)
+ALIAS_EINSUMS = [("i,ij,j->", "a;aa;a", (0, 2)), ("ji,jk,kl->il", "ab;aa;ab", (0, 2)), ("i,i->", "a;a", (0, 1)),
+                 ("ij,ij->", "ab;ab", (0, 1)), ("ij,ik,kj->j", "ab;aa;ab", (0, 2)), ("i,i->i", "b;b", (0, 1))]
 
 
 @recipe("einsum")
@@ -486,21 +490,33 @@ class EinSumR:
     @staticmethod
     def opts(tier):
         return st.fixed_dictionaries({"e": st.integers(0, len(EINSUMS) - 1),
-                                      "cplx": st.lists(st.booleans(), min_size=3, max_size=3)})
+                                      "cplx": st.lists(st.booleans(), min_size=3, max_size=3),
+                                      "alias": st.one_of(st.none(), st.none(), st.none(),
+                                                         st.integers(0, len(ALIAS_EINSUMS) - 1))})
 
     @staticmethod
     def build(o, rng):
         import pymoto as pym
         expr, shp = EINSUMS[o["e"]]
+        pair = None
+        if o.get("alias") is not None:
+            expr, shp, pair = ALIAS_EINSUMS[o["alias"]]
         sigs, dirs = [], []
         for i, s in enumerate(shp.split(";")):
+            if pair is not None and i == pair[1]:
+                sigs.append(sigs[pair[0]])        # the same Signal object in a second operand slot
+                continue
             c = o["cplx"][i]
             sigs.append(sig(rnd(rng, tuple(DIMS[ch] for ch in s), c), f"in{i}"))
             dirs.append(rnd(rng, tuple(DIMS[ch] for ch in s), c))
         mod = pym.EinSum(sigs, sig(None, "out"), expr)
         lab = ["einsum", f"einsum:{expr}", "complex" if any(o["cplx"][:len(sigs)]) else "real"]
-        if o["e"] >= 18:
+        if pair is None and o["e"] >= 18:
             lab.append("einsum:reduction")
+        if pair is not None:
+            lab.append("einsum:signal_in_two_slots")
+            uniq = [sg for k, sg in enumerate(sigs) if k != pair[1]]      # probe per distinct signal
+            return Built(mod, uniq, mod.sig_out, dirs, default_seeds(), linear=False, h=0.25, labels=lab, tol=1e-8)
         # multilinear: linear in each argument, so probe one argument at a time with exact differences
         b = Built(mod, mod.sig_in, mod.sig_out, dirs, default_seeds(), linear=False, h=0.25, labels=lab, tol=1e-8)
         return b
